@@ -96,6 +96,9 @@ pub proof fn lemma_usize_shr(x: usize, k: usize)
 {
     if k == 0 {
         assert(x >> 0usize == x) by (bit_vector);
+        assert(pow2(0) == 1);
+        assert((x as int) / 1 == x as int);
+        assert((x >> k) == x);
     } else {
         let t = (k - 1) as usize;
         lemma_usize_shr(x, t);
@@ -125,6 +128,9 @@ pub proof fn lemma_usize_shl(x: usize, k: usize)
 {
     if k == 0 {
         assert(x << 0usize == x) by (bit_vector);
+        assert(pow2(0) == 1);
+        assert((x as int) * 1 == x as int);
+        assert((x << k) == x);
     } else {
         let t = (k - 1) as usize;
         lemma_sh_pow2_pos(t as int);
@@ -138,16 +144,29 @@ pub proof fn lemma_usize_shl(x: usize, k: usize)
         // 2 * y <= usize::MAX: the top bit of y is clear
         lemma_usize_max();
         lemma_usize_shr(y, top);
-        assert(pow2(usize::BITS as int) == 2 * pow2(top as int));
+        let pt = pow2(top as int);
+        assert(usize::BITS as int == top as int + 1);
+        assert(pow2(top as int + 1) == 2 * pt);
+        assert(pow2(usize::BITS as int) == 2 * pt);
         lemma_sh_pow2_pos(top as int);
-        assert((y as int) / pow2(top as int) == 0) by {
-            vstd::arithmetic::div_mod::lemma_basic_div(y as int, pow2(top as int));
-        }
+        let yi = y as int;
+        assert(yi == xi * p);
+        assert(2 * yi <= usize::MAX as int);
+        assert(0 <= yi < pt);
+        assert(yi / pt == 0) by { vstd::arithmetic::div_mod::lemma_basic_div(yi, pt); }
+        assert((y >> top) == 0usize);
         assert((y >> top) == 0 ==> (z >> 1usize) == y && z & 1 == 0) by (bit_vector)
             requires z == y << 1usize, top == usize::BITS - 1;
         assert(z & 1 == 0 ==> z % 2 == 0) by (bit_vector);
         lemma_usize_shr(z, 1);
         assert(pow2(0) == 1 && pow2(1) == 2 * pow2(0));
+        let zi = z as int;
+        assert(zi / 2 == yi);
+        assert(zi % 2 == 0);
+        assert(zi == 2 * (zi / 2) + zi % 2) by { vstd::arithmetic::div_mod::lemma_fundamental_div_mod(zi, 2); }
+        assert(zi == 2 * yi);
+        assert((x << k) == z);
+        assert(zi == xi * pow2(k as int));
     }
 }
 
